@@ -7,6 +7,7 @@ mod conv;
 mod dump;
 mod echo;
 mod errs;
+mod listparse;
 mod util;
 
 fn dispatch(case: &Value) -> Value {
@@ -16,6 +17,7 @@ fn dispatch(case: &Value) -> Value {
         "acc_ops" => errs::run_acc_ops(case),
         "conv" => conv::run_conv(case),
         "int_sweep" => conv::run_int_sweep(case),
+        "parse_list" => listparse::run_parse_list(case),
         _ => json!({"error": format!("unknown op {}", op)}),
     }
 }
